@@ -441,3 +441,306 @@ func countSites(funcs []*ssa.Function, site func(in ssa.Instruction) (string, bo
 	}
 	return n
 }
+
+// ---------------------------------------------------------------------------
+// Lock balance: every function leaves a mutex as it found it. The analysis tracks, per
+// path, the function's net effect on one mutex relative to its entry: 0 (as found), +1
+// (acquired, not yet released), -1 (released, to be re-acquired: a function called with the
+// mutex held that drops it around a blocking operation). Lock: -1→0, 0→+1; Unlock: +1→0,
+// 0→-1. A deferred Unlock (direct, or inside a deferred closure) counts at every return
+// after its registration. A return at a definite non-zero level is reported unless the
+// function is listed as handing the mutex over on purpose. Joins of different levels are
+// "unknown" and stay silent: the rule decides only what it can see on every path.
+// ---------------------------------------------------------------------------
+
+type lockLevel int8
+
+const (
+	lvlUnreached lockLevel = -128
+	lvlUnknown   lockLevel = 127
+)
+
+func joinLvl(a, b lockLevel) lockLevel {
+	switch {
+	case a == lvlUnreached:
+		return b
+	case b == lvlUnreached:
+		return a
+	case a == b:
+		return a
+	}
+	return lvlUnknown
+}
+
+type balanceState struct {
+	lvl      lockLevel
+	deferred int8 // net effect of the deferred lock operations registered so far (-1 per deferred Unlock, +1 per deferred Lock); 120 = unknown
+}
+
+func joinBal(a, b balanceState) balanceState {
+	if a.lvl == lvlUnreached {
+		return b
+	}
+	if b.lvl == lvlUnreached {
+		return a
+	}
+	r := balanceState{lvl: joinLvl(a.lvl, b.lvl), deferred: a.deferred}
+	if a.deferred != b.deferred {
+		r.deferred = 120
+	}
+	return r
+}
+
+// LockBalance checks fn for one mutex. isLock / isUnlock match Call, Defer instructions;
+// closures deferred by fn that contain an unlock count as deferred unlocks. It returns the
+// obligations (returns) examined.
+func (c *Ctx) LockBalance(rule string, fn *ssa.Function, isLock, isUnlock M, what string, handover map[string]string) int {
+	return c.lockBalance(rule, fn, isLock, isUnlock, what, handover, nil, nil)
+}
+
+// lockBalance is LockBalance with callee summaries: summ gives the net effect of a static callee
+// that hands the mutex over on all its paths (a "…LockedAndUnlock" helper); when collect is
+// non-nil the per-return levels are recorded there instead of being reported.
+func (c *Ctx) lockBalance(rule string, fn *ssa.Function, isLock, isUnlock M, what string, handover map[string]string,
+	summ map[*ssa.Function]int, collect map[*ssa.Function][]int) int {
+	if len(fn.Blocks) == 0 {
+		return 0
+	}
+	// a closure that its parent defers is accounted for in the parent (deferredDelta)
+	if par := fn.Parent(); par != nil {
+		for _, b := range par.Blocks {
+			for _, in := range b.Instrs {
+				if d, ok := in.(*ssa.Defer); ok {
+					if mc, ok := d.Call.Value.(*ssa.MakeClosure); ok && mc.Fn == ssa.Value(fn) {
+						return 0
+					}
+				}
+			}
+		}
+	}
+	touches := false
+	// deferredDelta: the effect a deferred call has on the mutex when it runs at exit:
+	// -1 for a deferred Unlock (directly or in a closure), +1 for a deferred Lock
+	// (`d.mu.Unlock(); defer d.mu.Lock()` in a function entered with the mutex held).
+	deferredDelta := func(d *ssa.Defer) int {
+		deferAsCall = true
+		du, dl := isUnlock.F(d), isLock.F(d)
+		deferAsCall = false
+		switch {
+		case du:
+			return -1
+		case dl:
+			return +1
+		}
+		if mc, ok := d.Call.Value.(*ssa.MakeClosure); ok {
+			if cf, ok := mc.Fn.(*ssa.Function); ok {
+				nu, nl := 0, 0
+				deferAsCall = true // count the closure's own deferred operations too
+				for _, b := range cf.Blocks {
+					for _, in := range b.Instrs {
+						if isUnlock.F(in) {
+							nu++
+						}
+						if isLock.F(in) {
+							nl++
+						}
+					}
+				}
+				deferAsCall = false
+				switch {
+				case nu > 0 && nl == 0:
+					return -1
+				case nl > 0 && nu == 0:
+					return +1
+				}
+			}
+		}
+		return 0
+	}
+	deferredUnlockIn := func(d *ssa.Defer) bool { return deferredDelta(d) != 0 }
+	for _, b := range fn.Blocks {
+		for _, in := range b.Instrs {
+			if isLock.F(in) || isUnlock.F(in) {
+				touches = true
+			}
+			if call, ok := in.(*ssa.Call); ok && summ != nil {
+				if cal := call.Common().StaticCallee(); cal != nil {
+					if _, has := summ[cal]; has {
+						touches = true
+					}
+				}
+			}
+			if d, ok := in.(*ssa.Defer); ok && deferredUnlockIn(d) {
+				touches = true
+			}
+		}
+	}
+	if !touches {
+		return 0
+	}
+	in := map[*ssa.BasicBlock]balanceState{}
+	out := map[*ssa.BasicBlock]balanceState{}
+	for _, b := range fn.Blocks {
+		in[b] = balanceState{lvl: lvlUnreached}
+		out[b] = balanceState{lvl: lvlUnreached}
+	}
+	step := func(s balanceState, ins ssa.Instruction) balanceState {
+		if s.lvl == lvlUnreached {
+			return s
+		}
+		if isTerminatorCall(ins) {
+			return balanceState{lvl: lvlUnreached}
+		}
+		if _, isPanic := ins.(*ssa.Panic); isPanic {
+			return balanceState{lvl: lvlUnreached}
+		}
+		if d, ok := ins.(*ssa.Defer); ok {
+			if dd := deferredDelta(d); dd != 0 && s.deferred > -100 && s.deferred < 100 {
+				s.deferred += int8(dd)
+			}
+			return s
+		}
+		if _, ok := ins.(*ssa.Call); !ok {
+			return s
+		}
+		if s.lvl == lvlUnknown {
+			return s
+		}
+		if isLock.F(ins) {
+			s.lvl++
+		} else if isUnlock.F(ins) {
+			s.lvl--
+		} else if call, ok := ins.(*ssa.Call); ok && summ != nil {
+			if cal := call.Common().StaticCallee(); cal != nil {
+				if d, has := summ[cal]; has {
+					s.lvl += lockLevel(d)
+				}
+			}
+		}
+		if s.lvl > 2 || s.lvl < -2 {
+			s.lvl = lvlUnknown
+		}
+		return s
+	}
+	for changed, iter := true, 0; changed && iter < 100; iter++ {
+		changed = false
+		for _, b := range fn.Blocks {
+			var s balanceState
+			if b == fn.Blocks[0] {
+				s = balanceState{lvl: 0}
+			} else if b == fn.Recover {
+				s = balanceState{lvl: lvlUnreached}
+			} else {
+				s = balanceState{lvl: lvlUnreached}
+				for _, p := range b.Preds {
+					s = joinBal(s, out[p])
+				}
+			}
+			o := s
+			for _, ins := range b.Instrs {
+				o = step(o, ins)
+			}
+			if in[b] != s || out[b] != o {
+				in[b], out[b] = s, o
+				changed = true
+			}
+		}
+	}
+	n := 0
+	key := shortKey(QName(TopLevel(fn)))
+	for _, b := range fn.Blocks {
+		if b == fn.Recover || len(b.Instrs) == 0 {
+			continue
+		}
+		ret, ok := b.Instrs[len(b.Instrs)-1].(*ssa.Return)
+		if !ok {
+			continue
+		}
+		s := in[b]
+		for _, ins := range b.Instrs[:len(b.Instrs)-1] {
+			s = step(s, ins)
+		}
+		if s.lvl == lvlUnreached {
+			continue
+		}
+		n++
+		if s.lvl == lvlUnknown || s.deferred == 120 {
+			if collect != nil {
+				collect[fn] = append(collect[fn], 99)
+				continue
+			}
+			c.Ob(rule, fn, what, c.P.Pos(ret.Pos()), true, "") // undecided on this path: silent by design
+			continue
+		}
+		final := int(s.lvl) + int(s.deferred)
+		if collect != nil {
+			collect[fn] = append(collect[fn], final)
+			continue
+		}
+		okk := final == 0
+		detail := ""
+		if !okk {
+			if why, has := handover[key]; has {
+				okk = true
+				c.Note("%s: %s hands the mutex over on purpose: %s", rule, key, why)
+			} else if final > 0 {
+				detail = "the function returns with the mutex still held (acquired here and not released on this path): the next acquirer blocks forever"
+			} else {
+				detail = "the function releases the mutex once more than it acquired it on this path (a caller that still believes it holds the mutex races, or sync.Mutex panics on unlock of an unlocked mutex)"
+			}
+		}
+		pos := ret.Pos()
+		if !pos.IsValid() {
+			pos = fn.Pos()
+		}
+		c.Ob(rule, fn, what, c.P.Pos(pos), okk, detail)
+	}
+	return n
+}
+
+// LockBalanceAll runs the lock-balance rule for one mutex over funcs. Unexported functions that
+// change the mutex by the same non-zero amount on every return and have static callers are
+// hand-over helpers ("…LockedAndUnlock"): their effect is applied at their call sites and the
+// callers are checked instead.
+func (c *Ctx) LockBalanceAll(rule string, funcs []*ssa.Function, isLock, isUnlock M, what string, handover map[string]string) int {
+	idx := c.P.callIndex()
+	summ := map[*ssa.Function]int{}
+	for round := 0; round < 3; round++ {
+		collect := map[*ssa.Function][]int{}
+		for _, fn := range funcs {
+			c.lockBalance(rule, fn, isLock, isUnlock, what, handover, summ, collect)
+		}
+		changed := false
+		for fn, lv := range collect {
+			if len(lv) == 0 || lv[0] == 0 || lv[0] == 99 {
+				continue
+			}
+			same := true
+			for _, x := range lv {
+				if x != lv[0] {
+					same = false
+				}
+			}
+			obj := fn.Object()
+			if !same || fn.Parent() != nil || obj == nil || obj.Exported() || idx.valueRef[fn] || len(idx.callers[fn]) == 0 {
+				continue
+			}
+			if _, has := summ[fn]; !has {
+				summ[fn] = lv[0]
+				changed = true
+				c.Note("%s: %s changes the mutex by %+d on every return: treated as a hand-over helper, its callers are checked", rule, shortQ(QName(fn)), lv[0])
+			}
+		}
+		if !changed {
+			break
+		}
+	}
+	n := 0
+	for _, fn := range funcs {
+		if _, isHelper := summ[fn]; isHelper {
+			continue
+		}
+		n += c.lockBalance(rule, fn, isLock, isUnlock, what, handover, summ, nil)
+	}
+	return n
+}
